@@ -25,8 +25,6 @@ def fpInterface : List Nat := [
 ]
 
 def fpIter : List Nat := [
-  0xe50e35b4df26e1be29400cfcaab04c0a  /- tree/iter.rs::iter -/,
-  0x75e882bf1d574cfce1eeb3364e505107  /- tree/iter.rs::iter_operators_mut -/,
   0xea7df6e0f8ca109b49f549a517ab4362  /- tree/mod.rs::children_mut -/,
   0x1791e2cef5cac11c3081ecdea3996c54  /- tree/mod.rs::operator_mut -/]
 
@@ -37,8 +35,7 @@ def fpNumeric : List Nat := [
   0xe9052c5407c27fb28bf3688a9d2b386f  /- value/numeric_types/default_numeric_types.rs::random -/]
 
 def fpSerde : List Nat := [
-  0xa7ccd779f084200d6180b6aaad3682c0  /- feature_serde/mod.rs::deserialize -/,
-  0x810573a19e6174000ab531bf1b7ee609  /- feature_serde/mod.rs::visit_str -/]
+  0xa7ccd779f084200d6180b6aaad3682c0  /- feature_serde/mod.rs::deserialize -/]
 
 def fpTree : List Nat := [
 ]
